@@ -202,6 +202,8 @@ def oracle(case):
     # an mmCIF dialect of the same table: item order permuted, items left out that carry none of the compared fields
     dia = case.get("dialect")
     if dia:
+        if dia.get("label_alias") and {"auth_atom_id", "auth_comp_id"} & set(dia.get("drop", [])):
+            dia = dict(dia, label_alias=False)  # the names live in the label items then: they must stay as given
         dtext = atomtab.emit_cif(atoms, case.get("null", "?"), dialect=dia)
         df_d = parse_cif_atoms(dtext)
         out += diff_tables("read-cif-dialect", atoms, logical(df_d), single)
@@ -326,7 +328,7 @@ def st_cases():
 
     dialect = st.one_of(st.none(), st.fixed_dictionaries({
         "drop": st.lists(st.sampled_from(["label_entity_id", "auth_atom_id", "auth_comp_id"]), max_size=3, unique=True),
-        "order": st.one_of(st.none(), st.integers(0, 10 ** 6))}))
+        "order": st.one_of(st.none(), st.integers(0, 10 ** 6)), "label_alias": st.booleans()}))
     return st.fixed_dictionaries({"atoms": atomtab.st_tables(max_residues=4, max_atoms=6), "null": st.sampled_from(["?", "."]), "dialect": dialect})
 
 
